@@ -166,6 +166,47 @@ class Impl:
         self.folders = list(fs.folders.values()) + list(fs.deleted_folders.values())
         self.files = {fo.uuid: list(fo.files.values()) + list(fo.deleted_files.values()) for fo in self.folders}
         self.resolved: List[List[List[str]]] = []
+        # one real FolderObservation (file_system_requires_scan) per folder name, created when the name is first seen; what each
+        # reported at the last timestep and what it has cached
+        self.observers: Dict[str, object] = {}
+        self.last_obs: Dict[str, Tuple[str, str, str]] = {}
+        self.obs_complaints: List[dict] = []
+
+    def _observe(self):
+        """what PrimaiteGame.update_agents does after apply_timestep, for the folders of this node: every FolderObservation reads
+        the state dictionary (the real `describe_state()` of the file system, placed where the observation looks for it)"""
+        from primaite.game.agent.observations.file_system_observations import FolderObservation
+        state = {"network": {"nodes": {self.host: {"file_system": self.node.file_system.describe_state()}}}}
+        for name in sorted({fo.name for fo in self.folders}):
+            ob = self.observers.get(name)
+            if ob is None:
+                ob = self.observers[name] = FolderObservation(
+                    where=["network", "nodes", self.host, "file_system", "folders", name], files=[], num_files=0,
+                    include_num_access=False, file_system_requires_scan=True)
+            rep = ob.observe(state)["health_status"]
+            # ... and one observation WITHOUT file_system_requires_scan (reports the actual health)
+            ob2 = self.observers.get("!" + name)
+            if ob2 is None:
+                ob2 = self.observers["!" + name] = FolderObservation(
+                    where=["network", "nodes", self.host, "file_system", "folders", name], files=[], num_files=0,
+                    include_num_access=False, file_system_requires_scan=False)
+            rep2 = ob2.observe(state)["health_status"]
+            self.last_obs[name] = (self.FsH(int(rep)).name, self.FsH(int(ob.cached_obs["health_status"])).name,
+                                   self.FsH(int(rep2)).name)
+            # implementation-only oracle (the statement of theorem C14_obs_faithful, on the real objects): what the agent is shown
+            # for a folder is the folder's visible health of this moment (0 when there is no live folder of that name)
+            live = self.node.file_system.get_folder(name)
+            want = live.visible_health_status.name if live is not None and not live.deleted else "NONE"
+            if self.last_obs[name][0] != want:
+                self.obs_complaints.append({"item": f"folder-observation:{name}", "reported": self.last_obs[name][0],
+                                            "visible": want, "cached": self.last_obs[name][1]})
+            want2 = live.health_status.name if live is not None and not live.deleted else "NONE"
+            if self.last_obs[name][2] != want2:
+                self.obs_complaints.append({"item": f"folder-observation-without-scan:{name}", "reported": self.last_obs[name][2],
+                                            "visible": want2, "cached": "-"})
+
+    def obs_view(self) -> str:
+        return ",".join(f"{k}={v[0]}/{v[1]}/{v[2]}" for k, v in sorted(self.last_obs.items()))
 
     def _refresh(self):
         """after an operation: drop uninstalled software, append newly created software / folders / files"""
@@ -228,7 +269,9 @@ class Impl:
                              f"{order.get(f.uuid, 0)}")
         return lines
 
-    def dump(self) -> str:
+    def dump(self, core: bool = False) -> str:
+        """`core`: health values and countdowns only (without the observation refresh flag and the observers, which
+        `pre_timestep` / the observation after a timestep legitimately touch while the node is OFF)"""
         n = self.node
         c = n.config
         fs = n.file_system
@@ -244,9 +287,10 @@ class Impl:
                 fmark = "" if flive == (not f.deleted) else "!file-membership"
                 files.append(f"{f.name}:{f.health_status.name}:{f.visible_health_status.name}:{b(f.deleted)}{fmark}")
             fos.append(f"{fo.name}:{b(fo.deleted)}{mark}:{fo.health_status.name}:{fo.visible_health_status.name}:"
-                       f"{fo.scan_countdown}:{fo.restore_countdown}[" + ",".join(files) + "]")
+                       f"{fo.scan_countdown}:{fo.restore_countdown}" + ("" if core else f":{b(fo._scanned_this_step)}") + "[" + ",".join(files) + "]")
         return (f"P={n.operating_state.name},{c.start_up_countdown},{c.shut_down_countdown},{b(c.is_resetting)},"
-                f"{n.node_scan_countdown},{n.red_scan_countdown} S=" + sw + " F=" + " ".join(fos) + " V=" + self.view())
+                f"{n.node_scan_countdown},{n.red_scan_countdown} S=" + sw + " F=" + " ".join(fos) + " V=" + self.view()
+                + ("" if core else " O=" + self.obs_view()))
 
     def view(self) -> str:
         """what the agent sees BY NAME: the visible values in `describe_state()` of the file system (live folders by name, live
@@ -296,17 +340,22 @@ class Impl:
 
     def _apply(self, op: List[str]) -> str:
         k = op[0]
-        if k == "tick":
-            n0 = len(getattr(self, "restores", ()))
+        if k == "pre":  # the first part of a game step: PrimaiteGame.pre_timestep (the agents' requests come after it)
             self.sim.pre_timestep(self.t)
+            return "ok"
+        if k in ("tick", "apply"):  # tick = pre_timestep; apply_timestep; observe     apply = apply_timestep; observe
+            n0 = len(getattr(self, "restores", ()))
+            if k == "tick":
+                self.sim.pre_timestep(self.t)
             self.sim.apply_timestep(self.t)
             self.t += 1
             done = getattr(self, "restores", [])[n0:]
             if done:
                 # the database service's fix completed in this timestep and `restore_backup()` ran inside it
                 pre, dl, _ = done[-1]
-                self._lines = [["tickdb", b(pre), dl or "-"]]
+                self._lines = [[k + "db", b(pre), dl or "-"]]
                 self._refresh()
+            self._observe()
             return "ok"
         if k in ("shutdown", "startup", "nodereset"):
             return self.req("reset" if k == "nodereset" else k)
@@ -433,6 +482,10 @@ def run_impl(case: dict):
         answers.append(f"{r} | {impl.dump()}")
         cur = impl.snapshot()
         complaints += oracle_step(i, op, prev, cur)
+        for c0 in impl.obs_complaints:
+            complaints.append({"i": i, "op": op, "item": c0["item"], "visible": f"reported {c0['reported']} (cached {c0['cached']})",
+                               "actual": f"visible_health_status {c0['visible']}"})
+        impl.obs_complaints = []
         prev = cur
     return setup, answers, complaints, impl.resolved
 
@@ -452,7 +505,7 @@ def oracle_step(i: int, op: List[str], prev: dict, cur: dict) -> List[dict]:
             continue
         _, pa, pv = prev["sw"][uid]
         if v != pv:
-            legit = (k == "tick") or (k == "sw" and op[2] == name and op[3] == "scan")
+            legit = (k in ("tick", "apply")) or (k == "sw" and op[2] == name and op[3] == "scan")
             if not legit or v not in (a, pa):
                 out.append({"i": i, "op": op, "item": "sw:" + name, "visible": [pv, v], "actual": [pa, a]})
     for uid, (key, a, v) in cur["file"].items():
@@ -462,7 +515,7 @@ def oracle_step(i: int, op: List[str], prev: dict, cur: dict) -> List[dict]:
             if v != "NONE" and k in ("fscopyfile", "dbrestore"):
                 if not any(pk[1] == key[1] and pv2 == v for (pk, _, pv2) in prev["file"].values()):
                     out.append({"i": i, "op": op, "item": "file:" + "/".join(key), "visible": ["<new>", v], "actual": ["<new>", a]})
-            elif v != "NONE" and k == "tick":
+            elif v != "NONE" and k in ("tick", "apply"):
                 # a database restore INSIDE the timestep: the replacement shows what the replaced file showed - which the
                 # node scan of this very timestep may have updated just before (old file's true health at that moment) - or its
                 # own true health if the folder's timed scan completed after the replacement
@@ -474,7 +527,7 @@ def oracle_step(i: int, op: List[str], prev: dict, cur: dict) -> List[dict]:
             continue
         _, pa, pv = prev["file"][uid]
         if v != pv:
-            legit = (k == "tick") or (k in ("file", "file2") and (op[1], op[2]) == key and op[3] == "scan")
+            legit = (k in ("tick", "apply")) or (k in ("file", "file2") and (op[1], op[2]) == key and op[3] == "scan")
             if not legit or v not in (a, pa):
                 out.append({"i": i, "op": op, "item": "file:" + "/".join(key), "visible": [pv, v], "actual": [pa, a]})
     for uid, (name, a, v) in cur["folder"].items():
@@ -483,7 +536,7 @@ def oracle_step(i: int, op: List[str], prev: dict, cur: dict) -> List[dict]:
                 out.append({"i": i, "op": op, "item": "folder:" + name, "visible": ["<new>", v], "actual": ["<new>", a]})
             continue
         _, pa, pv = prev["folder"][uid]
-        if v != pv and k != "tick":
+        if v != pv and k not in ("tick", "apply"):
             out.append({"i": i, "op": op, "item": "folder:" + name, "visible": [pv, v], "actual": [pa, a]})
     return out
 
@@ -701,10 +754,10 @@ def timing_oracle(durs=(0, 1, 2, 3, 5)) -> List[dict]:
                     if freeze_at is not None and step == freeze_at:
                         # power loss: OFF for two timesteps, nothing may advance
                         im.apply(["shutdown"])
-                        before = im.dump()
+                        before = im.dump(core=True)
                         im.apply(["tick"])
                         im.apply(["tick"])
-                        after = im.dump()
+                        after = im.dump(core=True)
                         if before != after:
                             bad.append({"what": "timers moved while the node was OFF", "d": d, "clause": "freeze",
                                         "before": before, "after": after})
@@ -1148,4 +1201,43 @@ def twin_restore_cases() -> List[dict]:
                       "folders": [{"name": D, "scan": 2, "restore": 2, "files": [{"name": A, "health": "GOOD"}]},
                                   {"name": "d1", "scan": 2, "restore": 2, "files": [{"name": "b.txt", "health": "CORRUPT"}]}],
                       "ops": ops, "family": "twin-restore"})
+    return cases
+
+
+# ------------------------------------------------------------------------------------------ the order of a game step
+def game_order_cases(rng: Rng, depth: int = 2, nrandom: int = 200) -> List[dict]:
+    """PrimaiteGame.step is `pre_timestep; <requests>; apply_timestep; observe` - the requests fall BETWEEN the reset of the folders'
+    refresh flag and the timestep that may set it. Enumerated: every sequence of `depth` game steps over a menu of request lists
+    (scan requests, deletion / restore of the folder, corruption, repair, power), x folder scan duration x node scan duration,
+    followed by idle steps until every countdown has run out; plus seeded random longer games that also mix in plain `tick`s.
+    Compared after every line: the flag of every folder, what every FolderObservation reported and has cached."""
+    D = "d0"
+    menu = [[], [["folder", D, "scan"]], [["osscan"]], [["fsdelfolder", D]], [["fsrestfolder", D]], [["file", D, "a.txt", "corrupt"]],
+            [["folder", D, "repair"]], [["fsdelfolder", D], ["fsrestfolder", D]], [["folder", D, "scan"], ["fsdelfolder", D]],
+            [["shutdown"]], [["startup"]], [["folder", D, "restore"]], [["fsdelfile", D, "b.txt"]]]
+
+    def case(dn, df, steps, family):
+        ops = []
+        for reqs in steps:
+            if reqs == "tick":
+                ops.append(["tick"])
+            else:
+                ops += [["pre"]] + [list(x) for x in reqs] + [["apply"]]
+        return {"node": {"start": 0, "shut": 0, "scan": dn, "initial": "ON"},
+                "sw": [{"cls": "dns-server", "fix": 1, "health": "GOOD", "aux": None}], "sysfix": {},
+                "folders": [{"name": D, "scan": df, "restore": 2,
+                             "files": [{"name": "a.txt", "health": "GOOD"}, {"name": "b.txt", "health": "CORRUPT"}]},
+                            {"name": "d1", "scan": 1, "restore": 1, "files": [{"name": "c.txt", "health": "CORRUPT"}]}],
+                "ops": ops, "family": family}
+
+    cases = []
+    import itertools
+    for dn in (1, 2):
+        for df in (1, 2):
+            for seq in itertools.product(range(len(menu)), repeat=depth):
+                steps = [[["folder", D, "scan"], ["osscan"]]] + [menu[k] for k in seq] + [[], [["fsrestfolder", D]], [], []]
+                cases.append(case(dn, df, steps, "game-order"))
+    for _ in range(nrandom):
+        steps = [rng.choice(menu + ["tick", "tick"]) for _ in range(rng.range(4, 9))]
+        cases.append(case(rng.choice([0, 1, 2, 3]), rng.choice([0, 1, 2, 3]), steps, "game-order-random"))
     return cases
